@@ -128,12 +128,13 @@ class AndersonCD(BaseSolver):
             if stop_crit <= self.tol:
                 break
             # 1) select features : all unpenalized, + 2 * (nnz and penalized)
+            gsupp = penalty.generalized_support(w[:n_features])
+            n_gsupp_pen = np.logical_and(gsupp, ~unpen).sum()
             ws_size = max(min(self.p0 + n_unpen, n_features),
-                          min(2 * penalty.generalized_support(w[:n_features]).sum() -
-                              n_unpen, n_features))
+                          min(2 * n_gsupp_pen + n_unpen, n_features))
 
             opt[unpen] = np.inf  # always include unpenalized features
-            opt[penalty.generalized_support(w[:n_features])] = np.inf
+            opt[gsupp] = np.inf
 
             # here use topk instead of np.argsort(opt)[-ws_size:]
             ws = np.argpartition(opt, -ws_size)[-ws_size:]
